@@ -80,6 +80,16 @@ func want(ll, gl, el int) bool { return el >= ll && el >= gl && el != 7 }
 func checkTriple(t *testing.T, w *lw, ll, gl, el int) {
 	zerolog.SetGlobalLevel(zerolog.Level(gl))
 	base := zerolog.New(w).Level(zerolog.Level(ll))
+	// the gate's two inputs read back as set (also through a derived logger)
+	if g := zerolog.GlobalLevel(); g != zerolog.Level(gl) {
+		failf(t, tripleFail{ll, gl, el, "GlobalLevel", fmt.Sprintf("GlobalLevel() = %d after SetGlobalLevel(%d)", g, gl)})
+	}
+	if g := base.GetLevel(); g != zerolog.Level(ll) {
+		failf(t, tripleFail{ll, gl, el, "GetLevel", fmt.Sprintf("GetLevel() = %d on a logger made with Level(%d)", g, ll)})
+	}
+	if g := base.With().Str("k", "v").Logger().GetLevel(); g != zerolog.Level(ll) {
+		failf(t, tripleFail{ll, gl, el, "GetLevel", fmt.Sprintf("child GetLevel() = %d, parent Level(%d)", g, ll)})
+	}
 	// no sampler
 	w.n = 0
 	base.WithLevel(zerolog.Level(el)).Msg("m")
